@@ -32,6 +32,35 @@ BUILTIN_EXC = {
 }
 
 
+def _free_consts(t):
+    """uninterpreted constants occurring in a term"""
+    out, seen, todo = [], set(), [t]
+    while todo:
+        x = todo.pop()
+        if x.get_id() in seen:
+            continue
+        seen.add(x.get_id())
+        if z3.is_quantifier(x):
+            todo.append(x.body())
+        elif z3.is_app(x):
+            if x.num_args() == 0 and x.decl().kind() == z3.Z3_OP_UNINTERPRETED:
+                out.append(x)
+            todo.extend(x.children())
+    return out
+
+
+def _per_element_subs(terms, q, mark):
+    """constants generated (after name index `mark`) while a comprehension body was evaluated for the arbitrary element q are per-element
+    values: each becomes a function of q"""
+    per = {}
+    for t in terms:
+        for cst in _free_consts(t):
+            nm = cst.decl().name()
+            if "!" in nm and nm.rsplit("!", 1)[1].isdigit() and int(nm.rsplit("!", 1)[1]) > mark and not z3.eq(cst, q):
+                per[nm] = cst
+    return [(cst, z3.Function(nm + "@elem", q.sort(), cst.sort())(q)) for nm, cst in sorted(per.items())]
+
+
 class Ctx:
     """What a contract clause sees: parameters, fields (now and at entry), result, ghosts."""
 
@@ -764,6 +793,12 @@ class Engine:
             l = norm(lo, z3.IntVal(0))
             h = norm(hi, n)
             empty = z3.StringVal("") if base.ty == STR else base.ty.empty()
+            if getattr(self.reg, "seq_pointwise_hints", False) and base.ty != STR:
+                r = z3.Const(fresh_name("slice"), base.ty.sort())
+                st.assume(r == z3.If(h > l, z3.SubSeq(base.term, l, h - l), empty))
+                st.assume(z3.Length(r) == z3.If(h > l, h - l, 0))
+                ops.slice_hints(st, r, base.term, l)
+                return Val(r, base.ty)
             return Val(z3.If(h > l, z3.SubSeq(base.term, l, h - l), empty), base.ty)
         raise Unsupported(f"slice of {base!r}")
 
@@ -936,13 +971,22 @@ class Engine:
                 # element-wise image: the result holds exactly the images of the elements (stated over element sets;
                 # multiplicity and order are not tracked at this level)
                 xq = z3.Const(fresh_name("lcx"), it.ty.elem.sort())
+                from .values import name_mark
+                mark = name_mark()
                 s2 = s.fork()
                 s2.ghost["$lc_index"] = z3.IntVal(0)
                 res = bind(self.assign_target(g.target, Val(xq, it.ty.elem), s2), lambda s3, _v: self.eval(node.elt, s3))
                 if len(res) != 1 or res[0][0] != OK or not isinstance(res[0][2], Val):
                     raise Unsupported("branching list comprehension body")
                 elt = res[0][2]
-                for extra_fact in res[0][1].pc[len(s.pc):]:
+                # constants generated while evaluating the element expression are per-element values: they become functions of the
+                # element (Skolem functions), otherwise "for all x: fact(x, c)" would tie one c to every element
+                facts = list(res[0][1].pc[len(s.pc):])
+                subs = _per_element_subs(facts + [elt.term], xq, mark)
+                if subs:
+                    facts = [z3.substitute(f, *subs) for f in facts]
+                    elt = Val(z3.substitute(elt.term, *subs), elt.ty)
+                for extra_fact in facts:
                     s.assume(z3.ForAll([xq], extra_fact))   # facts the element expression's contract gives for every element
                 rty = SeqT(elt.ty)
                 r = z3.Const(fresh_name("lcres"), rty.sort())
@@ -950,6 +994,10 @@ class Engine:
                 dst_set = ops.seq_elems(r, elt.ty.sort())
                 yq = z3.Const(fresh_name("lcy"), elt.ty.sort())
                 s.assume(z3.Length(r) == z3.Length(it.term))
+                if getattr(self.reg, "listcomp_pointwise", False):
+                    # the defining equation of the comprehension, position by position (kept behind a registry flag: one more quantifier per site)
+                    jq = z3.Int(fresh_name("lcj"))
+                    s.assume(z3.ForAll([jq], z3.Implies(z3.And(jq >= 0, jq < z3.Length(it.term)), r[jq] == z3.substitute(elt.term, (xq, it.term[jq])))))
                 s.assume(z3.ForAll([xq], z3.Implies(z3.Select(src_set, xq), z3.Select(dst_set, elt.term))))
                 s.assume(z3.ForAll([yq], z3.Implies(z3.Select(dst_set, yq), z3.Exists([xq], z3.And(z3.Select(src_set, xq), elt.term == yq)))))
                 return [(OK, s, Val(r, rty))]
@@ -982,6 +1030,8 @@ class Engine:
                 qty = it.ty.key
             else:
                 raise Unsupported(f"set comprehension over {it!r}")
+            from .values import name_mark
+            mark = name_mark()
             s2 = s.fork()
             res = bind(self.assign_target(g.target, item, s2), lambda s3, _v: self.eval_many(list(g.ifs) + [node.elt], s3))
             if len(res) != 1 or res[0][0] != OK:
@@ -989,6 +1039,14 @@ class Engine:
             vs = res[0][2]
             cond = z3.And([member] + [truthy(c) for c in vs[:-1]])
             elt = vs[-1]
+            facts = list(res[0][1].pc[len(s.pc):])
+            subs = _per_element_subs(facts + [cond] + ([elt.term] if isinstance(elt, Val) else []), kq, mark)
+            if subs:
+                cond = z3.substitute(cond, *subs)
+                if isinstance(elt, Val):
+                    elt = Val(z3.substitute(elt.term, *subs), elt.ty)
+                for f in facts:       # what the body's contracts give for the arbitrary member holds for every member
+                    s.assume(z3.ForAll([kq], z3.Implies(member, z3.substitute(f, *subs))))
             if isinstance(elt, Val) and z3.eq(elt.term, kq):
                 return [(OK, s, Val(z3.Lambda([kq], cond), SetT(qty)))]
             yq = z3.Const(fresh_name("scy"), elt.ty.sort())
@@ -1024,7 +1082,10 @@ class Engine:
             else:
                 raise Unsupported(f"dict comprehension over {it!r}")
             kq = z3.Const(fresh_name("dck"), kty.sort())
+            from .values import name_mark
+            mark = name_mark()
             s2 = s.fork()
+            n_before = len(s2.pc)
             s2.assume(member_of(kq))
             item = TupleVal([Val(kq, kty), Val(it.ty.opt.val(z3.Select(it.term, kq)), it.ty.val)]) if pair else Val(kq, kty)
             res = bind(self.assign_target(g.target, item, s2), lambda s3, _v: self.eval_many(list(g.ifs) + [node.value], s3))
@@ -1038,6 +1099,13 @@ class Engine:
                 if not isinstance(val, Val):
                     raise Unsupported("dict comprehension value")
                 cond = z3.And([member_of(kq)] + [truthy(c) for c in vs[:-1]])
+                facts = list(s_ok.pc[n_before + 1:])
+                subs = _per_element_subs(facts + [cond, val.term], kq, mark)
+                if subs:
+                    cond = z3.substitute(cond, *subs)
+                    val = Val(z3.substitute(val.term, *subs), val.ty)
+                    for f in facts:
+                        s_ok.assume(z3.ForAll([kq], z3.Implies(member_of(kq), z3.substitute(f, *subs))))
                 mty = MapT(kty, val.ty)
                 m = z3.Const(fresh_name("dcomp"), mty.sort())
                 # facts established while evaluating the body for an arbitrary member stay (they only mention that fresh member);
